@@ -58,7 +58,16 @@ DescrFrom(p, x, k, reg) ==
   ELSE LET o == Parity(reg & p.mask) ^^ x[k]
            r2 == (reg \div 2) + x[k] * (2 ^ p.len)
        IN <<o>> \o DescrFrom(p, x, k + 1, r2)
-Descramble(p, ins) == << DescrFrom(p, ins[1], 1, p.seed) >>
+DescrambleDef(p, ins) == << DescrFrom(p, ins[1], 1, p.seed) >>
+(* The same in closed form (checked equal by TLC in MC_BlockFns): before     *)
+(* input k the register holds input j at bit len - (k-1-j) for the last      *)
+(* len + 1 inputs, and what is left of the seed.                             *)
+RegAt(p, x, k) ==
+  LET lo == MaxI(1, k - 1 - p.len) IN
+  (IF k - 1 <= p.len + 1 THEN p.seed \div (2 ^ (k - 1)) ELSE 0)
+  + SumSeq([j \in 1 .. (k - lo) |-> x[lo + j - 1] * (2 ^ (p.len - (k - 1 - (lo + j - 1))))])
+Descramble(p, ins) ==
+  LET x == ins[1] IN << [k \in 1 .. Len(x) |-> Parity(RegAt(p, x, k) & p.mask) ^^ x[k]] >>
 
 (* Access code correlator: 1 iff the last Len(code) inputs (zero history    *)
 (* before the stream) differ from the code in at most p.allowed places.     *)
@@ -89,9 +98,15 @@ ResFrom(x, k, i, d) ==
   IF k > Len(x) THEN <<>>
   ELSE LET reps == CeilDiv(k * i, d) - CeilDiv((k - 1) * i, d)
        IN [j \in 1 .. reps |-> x[k]] \o ResFrom(x, k + 1, i, d)
-Resample(p, ins) ==
+ResampleDef(p, ins) ==
   LET g == Gcd(p.interp, p.deci) IN
   << ResFrom(ins[1], 1, p.interp \div g, p.deci \div g) >>
+(* The same in closed form (linear time; equality with ResampleDef is        *)
+(* checked by TLC in MC_BlockFns): output j (0-based) is input floor(j d/i), *)
+(* ceil(L i/d) outputs.                                                      *)
+Resample(p, ins) ==
+  LET x == ins[1] IN
+  << [j \in 1 .. CeilDiv(Len(x) * p.interp, p.deci) |-> x[((j - 1) * p.deci) \div p.interp + 1]] >>
 
 (* RTL-SDR bytes to I/Q: pairs (a, b) -> ((a-127)/125, (b-127)/125); the    *)
 (* harness logs 125 * value rounded, packed as a complex integer.           *)
